@@ -656,6 +656,14 @@ func (b *BaseStore) Sync(ctx context.Context, heads []ipfslog.Entry) error {
 			continue
 		}
 
+		// a head written for another log is not ours to fetch: the replicator
+		// would drop it after the fetch, but only after it has been counted in
+		// the replication status
+		if h.GetLogID() != b.OpLog().GetID() {
+			b.Logger().Debug("warning: Given input entry belongs to another log and was discarded")
+			continue
+		}
+
 		if h.GetNext() == nil {
 			h.SetNext([]cid.Cid{})
 		}
